@@ -202,7 +202,10 @@ class Ed25519Key(PKey):
         return m
 
     def verify_ssh_sig(self, data, msg):
-        if msg.get_text() != self.name:
+        try:
+            if msg.get_text() != self.name:
+                return False
+        except UnicodeDecodeError:
             return False
 
         try:
